@@ -97,6 +97,10 @@ def family_refs(b, inst):
         for owner in y['members']:
             if owner not in fam:
                 bad.append(f'senses() of synset {y["lexicon"]}/{y["id"]} from {owner}')
+        # own and borrowed relations are resolved inside the family ('' = placeholder synset without lexicon)
+        for r, t in y['relations']:
+            if t[0] != '' and t[0] not in fam:
+                bad.append(f'relation target of synset {y["lexicon"]}/{y["id"]} from {t[0]}')
     return bad
 
 
